@@ -12,8 +12,10 @@ import (
 	"math/rand"
 	"os"
 	"path/filepath"
+	"regexp"
 	"sort"
 	"strings"
+	"time"
 
 	"verif/harness/internal/hutil"
 
@@ -90,20 +92,110 @@ func usablePatterns() (ok []patInfo, skipped []string) {
 }
 
 type ruleDesc struct {
-	Idx    int    `json:"idx"`
-	Group  string `json:"group"`
-	Line   int    `json:"line"`
-	File   string `json:"file"`
-	Src    string `json:"src"`
-	Tag    int    `json:"tag"`
-	Filter string `json:"filter"`
-	pat    *gogrep.Pattern
+	Idx     int    `json:"idx"`
+	Group   string `json:"group"`
+	Line    int    `json:"line"`
+	File    string `json:"file"`
+	Src     string `json:"src"`
+	Tag     int    `json:"tag"`
+	Filter  string `json:"filter"`
+	Comment bool   `json:"comment,omitempty"` // a MatchComment rule: Src is a regexp
+	Load    int    `json:"load"`              // index of the Load call that brought the rule in
+	Part    int    `json:"part"`              // 0: the loaded file itself; k > 0: the k-th imported bundle file
+	pat     *gogrep.Pattern
+	re      *regexp.Regexp
+}
+
+// comment patterns (plain regexps without groups; comment rules proper are C12's subject)
+var commentCatalogue = []string{"doc", `line \w+`, "values?", "[Ff]ield", "Package", "TODO", `^// \w+ doc\.$`, "comment"}
+
+// ---- rule bundles on disk (harness/fake/wbN): read back with a line scanner, so that the oracle knows their rules
+
+type bundleFile struct {
+	Name  string
+	Rules []ruleDesc // Group without prefix, Line, Src, Comment
+}
+
+var bundleRuleRe = regexp.MustCompile("^\\tm\\.(Match|MatchComment)\\(`([^`]*)`\\)\\.Report\\(`[^`]*`\\)$")
+var bundleFuncRe = regexp.MustCompile(`^func (\w+)\(m dsl\.Matcher\) \{$`)
+
+// readBundle scans harness/fake/<pkg>/*.go (in `go list` order: by name). Every line inside a matcher function must be a
+// one-line rule, anything else is an error (the description must not silently miss a rule).
+func readBundle(pkg string) ([]bundleFile, error) {
+	names, err := filepath.Glob(filepath.Join("fake", pkg, "*.go"))
+	if err != nil || len(names) == 0 {
+		return nil, fmt.Errorf("bundle %s: no files (cwd must be the harness module): %v", pkg, err)
+	}
+	sort.Strings(names)
+	var out []bundleFile
+	for _, name := range names {
+		b, err := os.ReadFile(name)
+		if err != nil {
+			return nil, err
+		}
+		bf := bundleFile{Name: name}
+		group := ""
+		for i, line := range strings.Split(string(b), "\n") {
+			if m := bundleFuncRe.FindStringSubmatch(line); m != nil {
+				group = m[1]
+				continue
+			}
+			if group == "" {
+				if strings.HasPrefix(line, "func ") {
+					return nil, fmt.Errorf("%s:%d: function not understood", name, i+1)
+				}
+				continue
+			}
+			if line == "}" {
+				group = ""
+				continue
+			}
+			m := bundleRuleRe.FindStringSubmatch(line)
+			if m == nil {
+				return nil, fmt.Errorf("%s:%d: rule line not understood: %s", name, i+1, line)
+			}
+			bf.Rules = append(bf.Rules, ruleDesc{Group: group, Line: i + 1, File: name, Src: m[2], Comment: m[1] == "MatchComment"})
+		}
+		out = append(out, bf)
+	}
+	return out, nil
+}
+
+var bundlePkgs = []string{"wb1", "wb2", "wb3", "wb4"}
+
+// groupEnabled is the GroupFilter of every Load of this mode: groups named *_off are skipped.
+func groupEnabled(name string) bool { return !strings.HasSuffix(name, "_off") }
+
+// loadHistory loads the files in order into one engine, each with the group filter.
+func loadHistory(fset *token.FileSet, files map[string]string, order []string) (e *ruleguard.Engine, err error) {
+	for try := 0; try < 4; try++ {
+		e, err = func() (e2 *ruleguard.Engine, err2 error) {
+			defer func() {
+				if r := recover(); r != nil {
+					err2 = fmt.Errorf("load panics: %v", r)
+				}
+			}()
+			e2 = ruleguard.NewEngine()
+			ctx := &ruleguard.LoadContext{Fset: fset, GroupFilter: func(g *ruleguard.GoRuleGroup) bool { return groupEnabled(g.Name) }}
+			for _, name := range order {
+				if err := e2.Load(ctx, name, strings.NewReader(files[name])); err != nil {
+					return nil, err
+				}
+			}
+			return e2, nil
+		}()
+		if err == nil || !strings.Contains(err.Error(), importFlake) {
+			break
+		}
+		time.Sleep(200 * time.Millisecond)
+	}
+	return e, err
 }
 
 var filterSrc = map[string]string{"": "", "dead": "m.Deadcode()", "live": "!m.Deadcode()", "const": `m["x"].Const`}
 
 // genRuleSet renders an abstract rule description both to DSL source files and to the oracle's rule list (load order).
-func genRuleSet(rng *rand.Rand, pats []patInfo, setIdx int) (files map[string]string, order []string, rules []ruleDesc) {
+func genRuleSet(rng *rand.Rand, pats []patInfo, bundles map[string][]bundleFile, setIdx int) (files map[string]string, order []string, rules []ruleDesc, parts []int) {
 	files = map[string]string{}
 	var xs []patInfo
 	for _, p := range pats {
@@ -143,24 +235,71 @@ func genRuleSet(rng *rand.Rand, pats []patInfo, setIdx int) (files map[string]st
 			line += 4
 		}
 		files[name] = sb.String()
-		return files, []string{name}, rules
+		return files, []string{name}, rules, []int{0}
 	}
-	nfiles := 1 + rng.Intn(3)
+	// a load history: 1-4 Load calls; each file is one of
+	//   syntax    groups of Match rules
+	//   comment   groups of MatchComment rules only (contributes no syntax rule)
+	//   mixed     both
+	//   filtered  Match groups that the GroupFilter rejects by name (the file contributes nothing)
+	//   bundle    a file that imports a rule bundle from disk (its own groups first, then the bundle's files in
+	//             `go list` order; some bundles end with a file without syntax rules or have none at all)
+	// the last Load is more often than not one that contributes no syntax rule.
+	nfiles := 1 + rng.Intn(4)
+	kindsAll := []string{"syntax", "syntax", "syntax", "mixed", "comment", "filtered", "bundle", "bundle"}
+	kindsLean := []string{"comment", "filtered", "bundle"}
 	for fi := 0; fi < nfiles; fi++ {
 		name := fmt.Sprintf("rules%d_%d.go", setIdx, fi)
+		kind := kindsAll[rng.Intn(len(kindsAll))]
+		if fi == nfiles-1 && nfiles > 1 && rng.Intn(2) == 0 {
+			kind = kindsLean[rng.Intn(len(kindsLean))]
+		}
 		var sb strings.Builder
 		line := 1
 		w := func(s string) { sb.WriteString(s); line += strings.Count(s, "\n") }
-		w("package gorules\n\nimport \"github.com/quasilyte/go-ruleguard/dsl\"\n\n")
+		w("package gorules\n\nimport \"github.com/quasilyte/go-ruleguard/dsl\"\n")
+		var imported []bundleFile
+		prefix := ""
+		if kind == "bundle" {
+			pkg := bundlePkgs[rng.Intn(len(bundlePkgs))]
+			if fi == nfiles-1 && rng.Intn(2) == 0 {
+				pkg = []string{"wb1", "wb4"}[rng.Intn(2)] // the bundles that end without syntax rules
+			}
+			prefix = fmt.Sprintf("b%d", fi)
+			imported = bundles[pkg]
+			w("import \"example.com/" + pkg + "\"\n\nfunc init() {\n\tdsl.ImportRules(\"" + prefix + "\", " + pkg + ".Bundle)\n}\n")
+		}
+		w("\n")
 		ngroups := 1 + rng.Intn(5)
+		if kind == "bundle" {
+			ngroups = rng.Intn(3) // the importing file may have no groups of its own
+		}
 		for gi := 0; gi < ngroups; gi++ {
 			group := fmt.Sprintf("g%d_%d_%d", setIdx, fi, gi)
+			gkind := kind
+			switch kind {
+			case "mixed", "bundle":
+				gkind = []string{"syntax", "comment", "syntax+comment"}[rng.Intn(3)]
+			case "syntax":
+				if rng.Intn(8) == 0 {
+					gkind = "filtered" // a disabled group among enabled ones
+				}
+			}
+			if gkind == "filtered" {
+				group += "_off"
+			}
 			w("func " + group + "(m dsl.Matcher) {\n")
 			nmatch := 1
 			if rng.Intn(4) == 0 {
 				nmatch = 2
 			}
 			for mi := 0; mi < nmatch; mi++ {
+				if gkind == "comment" || (gkind == "syntax+comment" && mi == nmatch-1) {
+					cp := commentCatalogue[rng.Intn(len(commentCatalogue))]
+					rules = append(rules, ruleDesc{Idx: len(rules), Group: group, Line: line, File: name, Src: cp, Comment: true, Load: fi, re: regexp.MustCompile(cp)})
+					w("\tm.MatchComment(`" + cp + "`).Report(`" + group + "`)\n")
+					continue
+				}
 				filt := []string{"", "", "", "dead", "live", "const"}[rng.Intn(6)]
 				pool := pats
 				if filt == "const" {
@@ -179,7 +318,9 @@ func genRuleSet(rng *rand.Rand, pats []patInfo, setIdx int) (files map[string]st
 							}
 						}
 					}
-					rules = append(rules, ruleDesc{Idx: len(rules), Group: group, Line: line, File: name, Src: p.Src, Tag: p.Tag, Filter: filt, pat: p.pat})
+					if gkind != "filtered" {
+						rules = append(rules, ruleDesc{Idx: len(rules), Group: group, Line: line, File: name, Src: p.Src, Tag: p.Tag, Filter: filt, Load: fi, pat: p.pat})
+					}
 					w("\t\t`" + p.Src + "`,\n")
 				}
 				w("\t)")
@@ -190,10 +331,35 @@ func genRuleSet(rng *rand.Rand, pats []patInfo, setIdx int) (files map[string]st
 			}
 			w("}\n\n")
 		}
+		for bi, bf := range imported {
+			for _, r := range bf.Rules {
+				if !groupEnabled(r.Group) {
+					continue
+				}
+				r.Idx, r.Group, r.Load, r.Part = len(rules), prefix+"/"+r.Group, fi, bi+1
+				if r.Comment {
+					r.re = regexp.MustCompile(r.Src)
+				} else {
+					found := false
+					for _, q := range pats {
+						if q.Src == r.Src {
+							r.Tag, r.pat, found = q.Tag, q.pat, true
+						}
+					}
+					if !found {
+						if p, err := compilePat(r.Src); err == nil {
+							r.Tag, r.pat = int(p.NodeTag()), p
+						}
+					}
+				}
+				rules = append(rules, r)
+			}
+		}
 		files[name] = sb.String()
 		order = append(order, name)
+		parts = append(parts, len(imported))
 	}
-	return files, order, rules
+	return files, order, rules, parts
 }
 
 type rep struct {
@@ -224,6 +390,9 @@ type rsObs struct {
 	Src      string            `json:"src,omitempty"`
 	Err      string            `json:"err,omitempty"`
 	Skipped  []string          `json:"skipped,omitempty"`
+	Loads    []string          `json:"loads,omitempty"`  // per Load call: "+s0c" = contributed syntax rules, no comment rules
+	Parts    []int             `json:"parts,omitempty"`  // per Load call: number of imported bundle files
+	LastLean bool              `json:"last_lean"`        // the last Load contributed no syntax rule, earlier ones did
 	Pairs    []string          `json:"pairs,omitempty"` // (node tag, pattern tag) pairs that produced an accepted match
 	Contested int              `json:"contested"`        // nodes on which more than one rule had an accepted match
 }
@@ -264,23 +433,50 @@ func runRulesMode(enc *json.Encoder, rng *rand.Rand, nsets, size int, tmp string
 	if len(targets) == 0 {
 		return
 	}
+	bundles := map[string][]bundleFile{}
+	for _, pkg := range bundlePkgs {
+		bfs, err := readBundle(pkg)
+		if err != nil {
+			enc.Encode(rsObs{K: "rs", Err: "target: bundle description: " + err.Error()})
+			return
+		}
+		bundles[pkg] = bfs
+	}
 	for si := 0; si < nsets; si++ {
-		files, order, rules := genRuleSet(rng, pats, si)
+		files, order, rules, parts := genRuleSet(rng, pats, bundles, si)
 		fset := token.NewFileSet()
 		var loadErr string
-		e, err := func() (e2 *ruleguard.Engine, err error) {
-			defer func() {
-				if r := recover(); r != nil {
-					err = fmt.Errorf("load panics: %v", r)
-				}
-			}()
-			return hutil.LoadEngine(fset, files, order)
-		}()
+		e, err := loadHistory(fset, files, order)
 		if err != nil {
 			loadErr = err.Error()
 		}
 		tg := targets[si%len(targets)]
-		obs := rsObs{K: "rs", Set: si, Target: tg.name, Rules: rules}
+		obs := rsObs{K: "rs", Set: si, Target: tg.name, Rules: rules, Parts: parts}
+		// the shape of the load history: per Load call, how many syntax / comment rules it contributed
+		{
+			ns, nc := make([]int, len(order)), make([]int, len(order))
+			for _, r := range rules {
+				if r.Comment {
+					nc[r.Load]++
+				} else {
+					ns[r.Load]++
+				}
+			}
+			earlier := 0
+			for i := range order {
+				cls := func(n int) string {
+					if n == 0 {
+						return "0"
+					}
+					return "+"
+				}
+				obs.Loads = append(obs.Loads, cls(ns[i])+"s"+cls(nc[i])+"c")
+				if i < len(order)-1 {
+					earlier += ns[i]
+				}
+			}
+			obs.LastLean = len(order) > 1 && ns[len(order)-1] == 0 && earlier > 0
+		}
 		if loadErr != "" {
 			obs.Err = "load: " + loadErr
 			obs.Files, obs.Order = files, order
@@ -322,6 +518,9 @@ func runRulesMode(enc *json.Encoder, rng *rand.Rand, nsets, size int, tmp string
 			winners := 0
 			stop := false
 			for _, r := range rules {
+				if r.Comment || r.pat == nil {
+					continue
+				}
 				var cbs [][3]int
 				r.pat.MatchNode(&state, tn.n, func(m gogrep.MatchData) {
 					v := true
@@ -376,6 +575,24 @@ func runRulesMode(enc *json.Encoder, rng *rand.Rand, nsets, size int, tmp string
 			}
 			if winners > 1 {
 				obs.Contested++
+			}
+		}
+		// comment rules run after the walk: every comment in order, the first rule whose regexp matches reports the match
+		for _, cg := range t.File.Comments {
+			for _, cm := range cg.List {
+				for _, r := range rules {
+					if !r.Comment {
+						continue
+					}
+					loc := r.re.FindStringIndex(cm.Text)
+					if loc == nil {
+						continue
+					}
+					off := t.Fset.Position(cm.Pos()).Offset
+					obs.Oracle = append(obs.Oracle, rep{r.Idx, off + loc[0], off + loc[1]})
+					pairs["comment"] = true
+					break
+				}
 			}
 		}
 		for p := range pairs {
